@@ -59,6 +59,12 @@ impl FstDictionary {
         words.sort_unstable_by(|(a, _), (b, _)| a.cmp(b));
         words.dedup_by(|(a, _), (b, _)| a == b);
 
+        // Word IDs fold case and apostrophes: of several spellings with one ID the word map keeps
+        // the last.  Keep the fuzzy index (`words` + FST) in step with it.
+        let mut full_dict = MutableDictionary::new();
+        full_dict.extend_words(words.iter().cloned());
+        words.retain(|(w, _)| full_dict.get_correct_capitalization_of(w) == Some(w.as_slice()));
+
         let mut builder = fst::MapBuilder::memory();
         for (index, (word, _)) in words.iter().enumerate() {
             let word = word.iter().collect::<String>();
@@ -66,9 +72,6 @@ impl FstDictionary {
                 .insert(word, index as u64)
                 .expect("Insertion not in lexicographical order!");
         }
-
-        let mut full_dict = MutableDictionary::new();
-        full_dict.extend_words(words.iter().cloned());
 
         let fst_bytes = builder.into_inner().unwrap();
         let word_map = FstMap::new(fst_bytes).expect("Unable to build FST map.");
